@@ -399,7 +399,7 @@ impl PatternFusion for ReduceMeanAxesFusion {
         Ok(ReduceMean {
             axes: Some(axes.to_vec()),
             keep_dims: mean_op.keep_dims,
-            noop_with_empty_axes: false,
+            noop_with_empty_axes: mean_op.noop_with_empty_axes,
         })
     }
 }
